@@ -92,10 +92,22 @@ package filesystem
 //@   props C18 C07
 //@   safety
 
+// Which files of a key folder hold secrets: everything except public key files, and those are recognised by the suffix
+// getPublicKeyFilename gives them (".pub", or the history directory ".pub.old" of such a file) - not by ".pub" occurring
+// somewhere in a client id. Import re-encrypts (and Export decrypts) exactly the files this classifies as private.
+//@ spec publicKeyName(f string) bool = gouf_bool("strings.HasSuffix", f, ".pub") || gouf_bool("strings.HasSuffix", f, ".pub.old")
+//@ func isPublic(fname string) (b bool)
+//@   props C07 C18
+//@   safety
+//@   ensures public-only-by-suffix: b <==> publicKeyName(fname)
+//@   modifies nothing
+
 //@ func isPrivate(fname string) (b bool)
-//@   props C18
+//@   props C07 C18
 //@   safety
 //@   ensures poison-is-private: fname == PoisonKeyFilename && !ret(isHistoricalFilename)[0] ==> b
+//@   ensures secret-unless-public-key-file: !ret(isHistoricalFilename)[0] ==> (b <==> (fname == PoisonKeyFilename || !publicKeyName(fname)))
+//@   ensures rotated-secret-unless-public-key-history: ret(isHistoricalFilename)[0] ==> (b <==> (gouf_string("path/filepath.Base", gouf_string("path/filepath.Dir", fname)) == PoisonKeyFilename || !publicKeyName(gouf_string("path/filepath.Base", gouf_string("path/filepath.Dir", fname)))))
 
 // Listing of rotated keys (C06): inside every history directory the j-th file (in directory order, from 0) is listed
 // with index j+2 — the numbering destroyRotatedKeyByIndex resolves with files[index-2] of the same directory.
